@@ -5,7 +5,7 @@ From Coq Require Import List Arith Bool Reals.
 From TLV Require Import Base.Ops Base.Tensor Base.RSum Model.Svd Proofs.SvdProofsAux Proofs.SvdProofs
   Proofs.SvdNNProofs Proofs.SvdSymeigProofs Proofs.SvdRandProofs Proofs.SvdInterfaceProofs
   Proofs.SvdGramProofs Proofs.SvdSymeigFull Proofs.SvdMaskProofs Proofs.SvdDecisions
-  Proofs.SvdWitness Proofs.SvdSymeigShapes.
+  Proofs.SvdWitness Proofs.SvdSymeigShapes Proofs.SvdEckartYoung Proofs.SvdRandE2E Proofs.SvdInterfaceAll.
 Import ListNotations.
 Local Open Scope nat_scope.
 
@@ -295,23 +295,8 @@ Theorem C05_interface_truncated_e2e_gen : forall (orc : list (list R) -> bool ->
 Proof. exact interface_truncated_e2e_gen. Qed.
 Print Assumptions C05_interface_truncated_e2e_gen.
 
-(* --- "best approximation of that rank" as far as it goes without Eckart-Young: PARTIAL, the Eckart-Young-Mirsky
-       inequality is the explicit premise (second argument), not proved and not available in any installed library --- *)
-Theorem C05_interface_best_approx_partial : forall (d1 d2 : nat) (Mf : nat -> nat -> R),
-  (forall (s : list R) (U V : list (list R)), svd_contract d1 d2 Mf false (U, s, V) ->
-     forall k B, rank_le d1 d2 k B ->
-     (rsum (Nat.min d1 d2 - k) (fun t => ((nth (k + t) s 0)^2)%R) <= frob2 d1 d2 (fun i j => (Mf i j - B i j)%R))%R) ->
-  forall (orc : list (list R) -> bool -> triple R) (funs : fname -> nat -> list (list R) -> triple R)
-         (Ml : list (list R)) r flip ub iters sq eps U Sg V,
-  Mf = mget Rops Ml ->
-  (forall f, svd_contract d1 d2 (mget Rops Ml) f (orc Ml f)) ->
-  (forall c X, funs FTruncated c X = truncated_svd (orc X) d1 d2 (Some r)) -> 1 <= r <= Nat.min d1 d2 ->
-  svd_interface Rops funs MTruncated d2 Ml (Some r) flip ub None None iters sq eps = Ok (U, Sg, V) ->
-  rank_le d1 d2 r (recon U Sg V) /\
-  forall B, rank_le d1 d2 r B ->
-    (frob2 d1 d2 (fun i j => (Mf i j - recon U Sg V i j)%R) <= frob2 d1 d2 (fun i j => (Mf i j - B i j)%R))%R.
-Proof. exact interface_best_approx_partial. Qed.
-Print Assumptions C05_interface_best_approx_partial.
+(* (round 5: the former C05_interface_best_approx_partial, which had the Eckart-Young-Mirsky inequality as a premise, is replaced
+   by the full theorems C05_eckart_young / C05_interface_best_approx* at the end of this file) *)
 
 (* --- mask imputation: one step is matrix * mask + (U @ St @ V) * (1 - mask) entrywise; observed entries never change;
        svd_interface under a mask returns the sign-resolved truncated SVD of the LAST imputed matrix --- *)
@@ -439,3 +424,247 @@ Theorem C05_symeig_shapes : forall (eigh : list (list R) -> list R * list (list 
   shape3 (symeig_svd Rops eigh sq eps M d1 d2 n) d1 (Nat.min d1 k) (Nat.min (Nat.min d1 d2) k) (Nat.min d2 k) d2.
 Proof. exact symeig_shapes. Qed.
 Print Assumptions C05_symeig_shapes.
+
+(* ================= round 5 ================= *)
+(* --- the Eckart-Young-Mirsky inequality (Frobenius norm), PROVED (Proofs/SvdEckartYoung.v: Gram-Schmidt by induction over the
+       columns, projection identity, Bessel twice, weighted top-k inequality; no library, no premise): for any answer meeting the
+       thin SVD contract for M, every matrix B = X Y of rank <= k is at least as far from M as the discarded singular values --- *)
+Theorem C05_eckart_young : forall (d1 d2 : nat) (Mf : nat -> nat -> R) (s : list R) (U V : list (list R)),
+  svd_contract d1 d2 Mf false (U, s, V) ->
+  forall k B, rank_le d1 d2 k B ->
+  (rsum (Nat.min d1 d2 - k) (fun t => ((nth (k + t) s 0)^2)%R) <= frob2 d1 d2 (fun i j => (Mf i j - B i j)%R))%R.
+Proof. exact eckart_young_contract. Qed.
+Print Assumptions C05_eckart_young.
+
+(* function-level form: any decomposition M = sum_{t<p} u_t s_t v_t^T with orthonormal u_t, v_t and s >= 0 non-increasing *)
+Theorem C05_eckart_young_fn : forall m n p k (M U V B : nat -> nat -> R) (s : nat -> R),
+  orthonormal_cols m p U -> orthonormal_rows p n V ->
+  (forall t, t < p -> (0 <= s t)%R) ->
+  (forall i j, i <= j -> j < p -> (s j <= s i)%R) ->
+  (forall i j, i < m -> j < n -> M i j = rsum p (fun t => (U i t * s t * V t j)%R)) ->
+  (exists X Y : nat -> nat -> R, forall i j, i < m -> j < n -> B i j = rsum k (fun t => (X i t * Y t j)%R)) ->
+  (rsum (p - k) (fun t => ((s (k + t)%nat)^2)%R) <= rsum m (fun i => rsum n (fun j => ((M i j - B i j)^2)%R)))%R.
+Proof. exact eckart_young_fn. Qed.
+Print Assumptions C05_eckart_young_fn.
+
+(* --- "its product is a best approximation of that rank", FULL: the triple returned by svd_interface(method = truncated_svd)
+       has rank <= n_eigenvecs and no matrix of rank <= n_eigenvecs is closer to M in Frobenius norm --- *)
+Theorem C05_interface_best_approx : forall (orc : list (list R) -> bool -> triple R) (funs : fname -> nat -> list (list R) -> triple R)
+    d1 d2 (Ml : list (list R)) r flip ub iters sq eps U Sg V,
+  (forall f, svd_contract d1 d2 (mget Rops Ml) f (orc Ml f)) ->
+  (forall c X, funs FTruncated c X = truncated_svd (orc X) d1 d2 (Some r)) -> 1 <= r <= Nat.min d1 d2 ->
+  svd_interface Rops funs MTruncated d2 Ml (Some r) flip ub None None iters sq eps = Ok (U, Sg, V) ->
+  rank_le d1 d2 r (recon U Sg V) /\
+  forall B, rank_le d1 d2 r B ->
+    (frob2 d1 d2 (fun i j => (mget Rops Ml i j - recon U Sg V i j)%R) <= frob2 d1 d2 (fun i j => (mget Rops Ml i j - B i j)%R))%R.
+Proof. exact interface_best_approx. Qed.
+Print Assumptions C05_interface_best_approx.
+
+(* every n_eigenvecs (None, 0, > min(shape), > max(shape)); k = the clamped request *)
+Theorem C05_interface_best_approx_gen : forall (orc : list (list R) -> bool -> triple R) (funs : fname -> nat -> list (list R) -> triple R)
+    d1 d2 (Ml : list (list R)) n flip ub iters sq eps U Sg V,
+  (forall f, svd_contract d1 d2 (mget Rops Ml) f (orc Ml f)) ->
+  (forall c X, funs FTruncated c X = truncated_svd (orc X) d1 d2 n) -> 1 <= d1 ->
+  svd_interface Rops funs MTruncated d2 Ml n flip ub None None iters sq eps = Ok (U, Sg, V) ->
+  let k := n_kept d1 d2 n in
+  length Sg = Nat.min k (Nat.min d1 d2) /\ rank_le d1 d2 (length Sg) (recon U Sg V) /\
+  forall B, rank_le d1 d2 k B ->
+    (frob2 d1 d2 (fun i j => (mget Rops Ml i j - recon U Sg V i j)%R) <= frob2 d1 d2 (fun i j => (mget Rops Ml i j - B i j)%R))%R.
+Proof. exact interface_best_approx_gen. Qed.
+Print Assumptions C05_interface_best_approx_gen.
+
+(* with a mask: best rank-<=r approximation of the LAST imputed matrix (which agrees with the input on the observed entries) *)
+Theorem C05_interface_masked_best_approx : forall (orc : nat -> list (list R) -> bool -> triple R)
+    (funs : fname -> nat -> list (list R) -> triple R) d1 d2 (Ml mask : list (list R)) r flip ub iters sq eps U Sg V,
+  rect d1 d2 Ml -> rect d1 d2 mask ->
+  (forall c X, rect d1 d2 X -> forall f, svd_contract d1 d2 (mget Rops X) f (orc c X f)) ->
+  (forall c X, funs FTruncated c X = truncated_svd (orc c X) d1 d2 (Some r)) ->
+  1 <= r <= Nat.min d1 d2 -> 1 <= iters ->
+  svd_interface Rops funs MTruncated d2 Ml (Some r) flip ub None (Some mask) iters sq eps = Ok (U, Sg, V) ->
+  exists Mlast : list (list R),
+    rect d1 d2 Mlast /\
+    (forall i j, i < d1 -> j < d2 -> mget Rops mask i j = 1%R -> mget Rops Mlast i j = mget Rops Ml i j) /\
+    rank_le d1 d2 r (recon U Sg V) /\
+    forall B, rank_le d1 d2 r B ->
+      (frob2 d1 d2 (fun i j => (mget Rops Mlast i j - recon U Sg V i j)%R) <= frob2 d1 d2 (fun i j => (mget Rops Mlast i j - B i j)%R))%R.
+Proof. exact interface_masked_best_approx. Qed.
+Print Assumptions C05_interface_masked_best_approx.
+
+(* --- randomized_svd of the model END TO END, both branches (range finder output Q, reduced matrix by mmul / transp, inner
+       truncated_svd of LAPACK's answer on the reduced matrix, lifting).  PARTIAL: "Q covers the range of M" (M = Q (Q^T M), resp.
+       M = (M Q) Q^T) is a hypothesis - it is what n_eigenvecs + n_oversamples >= rank buys with probability 1 over the Gaussian
+       draw; C05_range_finder_covers derives it (with Q's shape and orthonormality) from the reduced-QR contract of the LAST
+       tl.qr answer and the statement that the last sketch A @ P spans the columns of A.  Conclusions: output shapes, S = prefix of
+       LAPACK's S on the reduced matrix (>= 0, non-increasing), orthonormal factors, error = discarded squared singular values,
+       and (by Eckart-Young) no matrix of rank <= n_eigenvecs is closer --- *)
+Theorem C05_randomized_svd_direct_partial : forall (svd : list (list R) -> bool -> triple R) (qr : nat -> list (list R) -> list (list R))
+    (G M : list (list R)) d1 d2 n n_over n_iter c U Sg V,
+  rect d1 d2 M -> 1 <= d1 ->
+  let k := n_kept d1 d2 n in
+  dec_rand_transposed d1 d2 k (Nat.min d1 d2) (dec_rand_ndims k n_over (Nat.max d1 d2)) = false ->
+  let Q := range_finder Rops qr M d2 G n_iter in
+  rect d1 c Q -> orthonormal_cols d1 c (mget Rops Q) -> covers d1 d2 c (mget Rops M) (mget Rops Q) ->
+  let Mred := mmul Rops d2 (transp Rops c Q) M in
+  (forall f, svd_contract c d2 (mget Rops Mred) f (svd Mred f)) ->
+  randomized_svd Rops svd qr G M d1 d2 n n_over n_iter = (U, Sg, V) ->
+  let kk := Nat.min k (Nat.max c d2) in
+  let So := snd (fst (svd Mred (Nat.min c d2 <? kk))) in
+  shape3 (U, Sg, V) d1 (Nat.min kk c) (Nat.min kk (Nat.min c d2)) (Nat.min kk d2) d2 /\
+  Sg = firstn kk So /\ nonneg_list Sg /\ nonincreasing Sg /\
+  orthonormal_cols d1 (Nat.min kk c) (mget Rops U) /\ orthonormal_rows (Nat.min kk d2) d2 (mget Rops V) /\
+  frob2 d1 d2 (fun i j => (mget Rops M i j - recon U Sg V i j)%R) = rsum (Nat.min c d2 - kk) (fun t => ((nth (kk + t) So 0)^2)%R) /\
+  (forall B, rank_le d1 d2 k B ->
+     (frob2 d1 d2 (fun i j => (mget Rops M i j - recon U Sg V i j)%R) <= frob2 d1 d2 (fun i j => (mget Rops M i j - B i j)%R))%R).
+Proof. exact randomized_svd_direct_partial. Qed.
+Print Assumptions C05_randomized_svd_direct_partial.
+
+Theorem C05_randomized_svd_transposed_partial : forall (svd : list (list R) -> bool -> triple R) (qr : nat -> list (list R) -> list (list R))
+    (G M : list (list R)) d1 d2 n n_over n_iter c U Sg V,
+  rect d1 d2 M -> 1 <= d2 ->
+  let k := n_kept d1 d2 n in
+  dec_rand_transposed d1 d2 k (Nat.min d1 d2) (dec_rand_ndims k n_over (Nat.max d1 d2)) = true ->
+  let Q := range_finder Rops qr (transp Rops d2 M) d1 G n_iter in
+  rect d2 c Q -> orthonormal_cols d2 c (mget Rops Q) -> coversT d1 d2 c (mget Rops M) (mget Rops Q) ->
+  let Mred := transp Rops d1 (mmul Rops d1 (transp Rops c Q) (transp Rops d2 M)) in
+  (forall f, svd_contract d1 c (mget Rops Mred) f (svd Mred f)) ->
+  randomized_svd Rops svd qr G M d1 d2 n n_over n_iter = (U, Sg, V) ->
+  let kk := Nat.min k (Nat.max d1 c) in
+  let So := snd (fst (svd Mred (Nat.min d1 c <? kk))) in
+  shape3 (U, Sg, V) d1 (Nat.min kk d1) (Nat.min kk (Nat.min d1 c)) (Nat.min kk c) d2 /\
+  Sg = firstn kk So /\ nonneg_list Sg /\ nonincreasing Sg /\
+  orthonormal_cols d1 (Nat.min kk d1) (mget Rops U) /\ orthonormal_rows (Nat.min kk c) d2 (mget Rops V) /\
+  frob2 d1 d2 (fun i j => (mget Rops M i j - recon U Sg V i j)%R) = rsum (Nat.min d1 c - kk) (fun t => ((nth (kk + t) So 0)^2)%R) /\
+  (forall B, rank_le d1 d2 k B ->
+     (frob2 d1 d2 (fun i j => (mget Rops M i j - recon U Sg V i j)%R) <= frob2 d1 d2 (fun i j => (mget Rops M i j - B i j)%R))%R).
+Proof. exact randomized_svd_transposed_partial. Qed.
+Print Assumptions C05_randomized_svd_transposed_partial.
+
+(* FULL: the range finder's result is the Q factor of the last tl.qr call (by induction over the power iterations); if that one
+   answer meets the reduced-QR contract qr_ok (shape d1 x min(d1,w), orthonormal columns, X = Q (Q^T X)) and the last sketch
+   A @ P spans the columns of A, then Q has the three properties assumed above *)
+Theorem C05_range_finder_covers : forall (qr : nat -> list (list R) -> list (list R)) (A : list (list R)) d1 d2 G n_iter,
+  rect d1 d2 A ->
+  let idx := fst (final_test qr A d2 G n_iter) in
+  let P := snd (final_test qr A d2 G n_iter) in
+  let w := ncols P in
+  qr_ok d1 w (mmul Rops w A P) (qr idx (mmul Rops w A P)) ->
+  spans d1 d2 w (mget Rops A) (mget Rops (mmul Rops w A P)) ->
+  let Q := range_finder Rops qr A d2 G n_iter in
+  let c := Nat.min d1 w in
+  rect d1 c Q /\ orthonormal_cols d1 c (mget Rops Q) /\ covers d1 d2 c (mget Rops A) (mget Rops Q).
+Proof. exact range_finder_covers. Qed.
+Print Assumptions C05_range_finder_covers.
+
+Theorem C05_range_finder_last : forall (qr : nat -> list (list R) -> list (list R)) (A : list (list R)) cA G n_iter,
+  let '(idx, P) := final_test qr A cA G n_iter in
+  range_finder Rops qr A cA G n_iter = qr idx (mmul Rops (ncols P) A P).
+Proof. exact range_finder_last. Qed.
+Print Assumptions C05_range_finder_last.
+
+Theorem C05_covers_transp : forall d1 d2 c (M : list (list R)) (Qf : nat -> nat -> R),
+  covers d2 d1 c (mget Rops (transp Rops d2 M)) Qf -> coversT d1 d2 c (mget Rops M) Qf.
+Proof. exact covers_transp. Qed.
+Print Assumptions C05_covers_transp.
+
+(* all hypotheses of C05_randomized_svd_direct_partial and of C05_range_finder_covers hold jointly on a 2 x 1 instance *)
+Example C05_randomized_hyps_satisfiable :
+  rect 2 1 Mx /\ 1 <= 2 /\
+  dec_rand_transposed 2 1 (n_kept 2 1 (Some 1)) (Nat.min 2 1) (dec_rand_ndims (n_kept 2 1 (Some 1)) 0 (Nat.max 2 1)) = false /\
+  let Q := range_finder Rops qrx Mx 1 Gx 0 in
+  rect 2 1 Q /\ orthonormal_cols 2 1 (mget Rops Q) /\ covers 2 1 1 (mget Rops Mx) (mget Rops Q) /\
+  (forall f, svd_contract 1 1 (mget Rops (mmul Rops 1 (transp Rops 1 Q) Mx)) f (svdx (mmul Rops 1 (transp Rops 1 Q) Mx) f)) /\
+  qr_ok 2 1 (mmul Rops 1 Mx Gx) (qrx 0 (mmul Rops 1 Mx Gx)) /\
+  spans 2 1 1 (mget Rops Mx) (mget Rops (mmul Rops 1 Mx Gx)).
+Proof. exact randomized_hyps_satisfiable. Qed.
+
+(* --- svd_interface for ANY back end the dispatch table selects (truncated_svd, symeig_svd, randomized_svd, a user callable), no
+       mask / non_negative: if the selected function's answer on the input has orthonormal columns / rows, the interface returns
+       the same singular values, orthonormal factors, entrywise the same product U diag(S) V, and with flip_sign the deciding
+       vectors are sign-canonical (the entry of largest magnitude of every column of U, resp. row of V, is non-negative and
+       dominates) --- *)
+Theorem C05_interface_generic : forall (funs : fname -> nat -> list (list R) -> triple R) meth fn d1 d2 Ml n flip ub iters sq eps
+    U0 S0 V0 U S V pu pv,
+  dispatch meth = Some fn -> funs fn 0 Ml = (U0, S0, V0) ->
+  rect d1 pu U0 -> rect pv d2 V0 -> 1 <= d1 -> length S0 <= pu -> length S0 <= pv ->
+  orthonormal_cols d1 pu (mget Rops U0) -> orthonormal_rows pv d2 (mget Rops V0) ->
+  svd_interface Rops funs meth d2 Ml n flip ub None None iters sq eps = Ok (U, S, V) ->
+  S = S0 /\ orthonormal_cols d1 pu (mget Rops U) /\ orthonormal_rows pv d2 (mget Rops V) /\
+  (forall i j, recon U S V i j = recon U0 S0 V0 i j) /\
+  (flip = true -> ub = true -> forall t, t < pu ->
+     exists imax, imax < d1 /\ forall i, (Rabs (mget Rops U i t) <= mget Rops U imax t)%R) /\
+  (flip = true -> ub = false -> 1 <= d2 -> forall t, t < pv ->
+     exists jmax, forall j, (Rabs (mget Rops V t j) <= mget Rops V t jmax)%R).
+Proof. exact interface_generic. Qed.
+Print Assumptions C05_interface_generic.
+
+(* --- svd_interface(method = 'randomized_svd') end to end, both branches, any flip_sign setting: composition of the dispatch,
+       randomized_svd of the model and svd_flip.  PARTIAL for the same reason as C05_randomized_svd_*_partial (range covering) --- *)
+Theorem C05_interface_randomized_direct_partial : forall (svd : list (list R) -> bool -> triple R) (qr : nat -> list (list R) -> list (list R))
+    (funs : fname -> nat -> list (list R) -> triple R) (G M : list (list R)) d1 d2 n n_over n_iter c flip ub iters sq eps U Sg V,
+  rect d1 d2 M -> 1 <= d1 ->
+  let k := n_kept d1 d2 n in
+  dec_rand_transposed d1 d2 k (Nat.min d1 d2) (dec_rand_ndims k n_over (Nat.max d1 d2)) = false ->
+  let Q := range_finder Rops qr M d2 G n_iter in
+  rect d1 c Q -> orthonormal_cols d1 c (mget Rops Q) -> covers d1 d2 c (mget Rops M) (mget Rops Q) ->
+  let Mred := mmul Rops d2 (transp Rops c Q) M in
+  (forall f, svd_contract c d2 (mget Rops Mred) f (svd Mred f)) ->
+  (forall cl X, funs FRandomized cl X = randomized_svd Rops svd qr G X d1 d2 n n_over n_iter) ->
+  svd_interface Rops funs MRandomized d2 M n flip ub None None iters sq eps = Ok (U, Sg, V) ->
+  let kk := Nat.min k (Nat.max c d2) in
+  let So := snd (fst (svd Mred (Nat.min c d2 <? kk))) in
+  Sg = firstn kk So /\ nonneg_list Sg /\ nonincreasing Sg /\
+  orthonormal_cols d1 (Nat.min kk c) (mget Rops U) /\ orthonormal_rows (Nat.min kk d2) d2 (mget Rops V) /\
+  frob2 d1 d2 (fun i j => (mget Rops M i j - recon U Sg V i j)%R) = rsum (Nat.min c d2 - kk) (fun t => ((nth (kk + t) So 0)^2)%R) /\
+  (forall B, rank_le d1 d2 k B ->
+     (frob2 d1 d2 (fun i j => (mget Rops M i j - recon U Sg V i j)%R) <= frob2 d1 d2 (fun i j => (mget Rops M i j - B i j)%R))%R) /\
+  (flip = true -> ub = true -> forall t, t < Nat.min kk c ->
+     exists imax, imax < d1 /\ forall i, (Rabs (mget Rops U i t) <= mget Rops U imax t)%R).
+Proof. exact interface_randomized_direct_partial. Qed.
+Print Assumptions C05_interface_randomized_direct_partial.
+
+Theorem C05_interface_randomized_transposed_partial : forall (svd : list (list R) -> bool -> triple R) (qr : nat -> list (list R) -> list (list R))
+    (funs : fname -> nat -> list (list R) -> triple R) (G M : list (list R)) d1 d2 n n_over n_iter c flip ub iters sq eps U Sg V,
+  rect d1 d2 M -> 1 <= d1 -> 1 <= d2 ->
+  let k := n_kept d1 d2 n in
+  dec_rand_transposed d1 d2 k (Nat.min d1 d2) (dec_rand_ndims k n_over (Nat.max d1 d2)) = true ->
+  let Q := range_finder Rops qr (transp Rops d2 M) d1 G n_iter in
+  rect d2 c Q -> orthonormal_cols d2 c (mget Rops Q) -> coversT d1 d2 c (mget Rops M) (mget Rops Q) ->
+  let Mred := transp Rops d1 (mmul Rops d1 (transp Rops c Q) (transp Rops d2 M)) in
+  (forall f, svd_contract d1 c (mget Rops Mred) f (svd Mred f)) ->
+  (forall cl X, funs FRandomized cl X = randomized_svd Rops svd qr G X d1 d2 n n_over n_iter) ->
+  svd_interface Rops funs MRandomized d2 M n flip ub None None iters sq eps = Ok (U, Sg, V) ->
+  let kk := Nat.min k (Nat.max d1 c) in
+  let So := snd (fst (svd Mred (Nat.min d1 c <? kk))) in
+  Sg = firstn kk So /\ nonneg_list Sg /\ nonincreasing Sg /\
+  orthonormal_cols d1 (Nat.min kk d1) (mget Rops U) /\ orthonormal_rows (Nat.min kk c) d2 (mget Rops V) /\
+  frob2 d1 d2 (fun i j => (mget Rops M i j - recon U Sg V i j)%R) = rsum (Nat.min d1 c - kk) (fun t => ((nth (kk + t) So 0)^2)%R) /\
+  (forall B, rank_le d1 d2 k B ->
+     (frob2 d1 d2 (fun i j => (mget Rops M i j - recon U Sg V i j)%R) <= frob2 d1 d2 (fun i j => (mget Rops M i j - B i j)%R))%R) /\
+  (flip = true -> ub = true -> forall t, t < Nat.min kk d1 ->
+     exists imax, imax < d1 /\ forall i, (Rabs (mget Rops U i t) <= mget Rops U imax t)%R).
+Proof. exact interface_randomized_transposed_partial. Qed.
+Print Assumptions C05_interface_randomized_transposed_partial.
+
+(* --- svd_interface(method = 'symeig_svd') end to end (FULL): every shape (tall branch on M M^T, wide / square on M^T M), clamped
+       n_eigenvecs <= min(shape), any flip; eigh is any function with the output shapes (d,), (d, d) whose answer on the Gram matrix
+       the code builds meets eigh_contract2 and whose kept eigenvalues exceed eps: S = sqrt of the leading eigenvalues (positive),
+       orthonormal factors, squared error = sum of the discarded eigenvalues, sign-canonical columns of U --- *)
+Theorem C05_interface_symeig_e2e : forall (eigh : list (list R) -> list R * list (list R)) (funs : fname -> nat -> list (list R) -> triple R)
+    epsd (M : list (list R)) d1 d2 n lam W flip ub iters sq eps U Sg V,
+  rect d1 d2 M -> 1 <= d1 ->
+  let d := if d2 <? d1 then d1 else d2 in
+  let Gm := if d2 <? d1 then mmul Rops d1 M (transp Rops d2 M) else mmul Rops d2 (transp Rops d2 M) M in
+  (forall G0, length (fst (eigh G0)) = d /\ rect d d (snd (eigh G0))) ->
+  eigh Gm = (lam, W) -> eigh_contract2 d Gm lam W ->
+  let k := n_kept d1 d2 n in
+  k <= Nat.min d1 d2 ->
+  (forall t, t < k -> (0 <= epsd < nth (d - 1 - t) lam 0)%R) ->
+  (forall cl X, funs FSymeig cl X = symeig_svd Rops eigh sqrt epsd X d1 d2 n) ->
+  svd_interface Rops funs MSymeig d2 M n flip ub None None iters sq eps = Ok (U, Sg, V) ->
+  length Sg = k /\
+  (forall t, t < k -> nth t Sg 0%R = sqrt (nth (d - 1 - t) lam 0%R) /\ (0 < nth t Sg 0)%R) /\
+  orthonormal_cols d1 k (mget Rops U) /\ orthonormal_rows k d2 (mget Rops V) /\
+  frob2 d1 d2 (fun i j => (mget Rops M i j - recon U Sg V i j)%R) = rsum (d - k) (fun t => nth (d - 1 - (k + t)) lam 0%R) /\
+  (flip = true -> ub = true -> forall t, t < k -> exists imax, imax < d1 /\ forall i, (Rabs (mget Rops U i t) <= mget Rops U imax t)%R).
+Proof. exact interface_symeig_e2e. Qed.
+Print Assumptions C05_interface_symeig_e2e.
